@@ -146,9 +146,47 @@ def _norm_value(ctx, f, node):
         return src(node)
 
 
+def _loop_shift(es):
+    """The stage loop is `range(from_stage, to_stage + k)`: its last stage is to_stage + k - 1.  -> (loop node or None, k - 1 or None).
+    A half-open convention (to_stage exclusive, k = 0) is the same set of stages when to_stage is one larger: the region rule below
+    is stated on the last stage the loop visits, not on the spelling of the bound."""
+    loops = [n_ for n_ in walk_local(es.node) if isinstance(n_, ast.For) and isinstance(n_.iter, ast.Call) and F.is_name(n_.iter.func, 'range')
+             and 'stage' in src(n_.iter)]
+    loops = [lp for lp in loops if 'from_stage' in src(lp.iter) or 'to_stage' in src(lp.iter)]
+    if len(loops) != 1 or len(loops[0].iter.args) != 2:
+        return (loops[0] if len(loops) == 1 else None), None
+    try:
+        d = affine(loops[0].iter.args[1]) - affine(ast.parse('to_stage', mode='eval').body)
+    except NotAffine:
+        return loops[0], None
+    return loops[0], (d.const - 1 if d.is_const() else None)
+
+
+def _norm_shifted(node, shift):
+    """'index[<affine>]' or '<affine>' of node + shift."""
+    from ..affine import Aff
+
+    def term(n_):
+        if isinstance(n_, ast.Subscript) and src(n_.value) == IDX:
+            try:
+                return f'index[{affine(n_.slice).key()}]'
+            except NotAffine:
+                return f'index[{src(n_.slice)}]'
+        return None
+    try:
+        a = affine(node, None, term) + Aff({}, shift)
+    except NotAffine:
+        return src(node)
+    if a.const == 0 and len(a.terms) == 1 and list(a.terms.values()) == [1] and list(a.terms)[0].startswith('index['):
+        return list(a.terms)[0]
+    return a.key()
+
+
 def r2_arithmetic(ctx):
     es = ctx.prog.func(f'{EXP}.export_string')
     body = docstring_free(es.body)
+    _lp, shift = _loop_shift(es)
+    shift = shift if shift is not None else 0
     # ---- to_stage
     proj = F.project(body, {'to_stage'})
     sps = symex.sym_paths(proj)
@@ -162,7 +200,7 @@ def r2_arithmetic(ctx):
             sp = _region_value(ctx, es, sps, _vals(a, b))
             val = sp.env.get('to_stage')
             val = G.substitute(val, _locals(es)) if val is not None else None
-            got = _norm_value(ctx, es, val) if val is not None else None
+            got = _norm_shifted(val, shift) if val is not None else None
             want = f'index[1*{B}]' if (b is not None and b <= L0 - 1) else affine(ast.parse(f'len({STG}) - 1', mode='eval').body).key()
             n += 1
             if got != want:
@@ -198,7 +236,8 @@ def r2_arithmetic(ctx):
         ok = len(args) == 2 and src(args[0]) == 'from_stage'
         if ok:
             try:
-                ok = affine(args[1]) == affine(ast.parse('to_stage + 1', mode='eval').body)
+                d_ = affine(args[1]) - affine(ast.parse('to_stage', mode='eval').body)
+                ok = d_.is_const()      # to_stage + k: the offset k is accounted for in the region rule (last stage visited)
             except NotAffine:
                 ok = False
         ctx.check(ok, 'R2', f'{es.module.relpath}:{lp.lineno}', es.qualname, 'stage-loop-bounds',
